@@ -55,6 +55,7 @@ import (
 	"net"
 	"net/http"
 	"net/url"
+	"runtime"
 	"strconv"
 	"strings"
 	"sync"
@@ -92,6 +93,18 @@ type c15Step struct {
 	// connection's UDP session manager sit in Outbound.UDP.  The dials stay pending until a "release" step for the
 	// slot (they then fail) or the end of the case - in particular across the end of the connection.
 	Kind string `json:"kind"`
+	// tcp steps.  Fin: the sender closes its end TOGETHER with the bytes (up: the client writes and closes the stream at
+	// once, so the server's Read of the QUIC stream can return the bytes and io.EOF in one call; down: the remote does the
+	// same - through a Mem remote the bytes and the EOF are one Read by construction).  The flow is over after such a step.
+	// Mem: the remote end of the flow is an in-memory net.Conn handed out by the gated Outbound (the harness holds the
+	// other end), whose Read returns the last bytes together with io.EOF as the io.Reader contract allows.
+	// Hooked: the request goes through the server's RequestHook (the address carries the marker), which takes Putback
+	// bytes off the stream before the target is dialled and hands them back to be written to the target ahead of the
+	// relay (Putback 0: a hook that only rewrites the address).  Also on udp steps (address rewrite only).
+	Fin     bool `json:"fin"`
+	Mem     bool `json:"mem"`
+	Hooked  bool `json:"hooked"`
+	Putback int  `json:"putback"`
 }
 
 type c15Pend struct {
@@ -308,8 +321,9 @@ type c15TapEv struct {
 	Log    bool // LogTraffic (else LogOnlineState)
 	ID     int  // index of the id string, -1 if unknown
 	Tx, Rx uint64
-	OK     bool // LogTraffic's answer
-	On     bool // LogOnlineState's argument
+	OK     bool   // LogTraffic's answer
+	On     bool   // LogOnlineState's argument
+	Site   string // LogTraffic: the function of core/server the call was made from (report site, from the call stack)
 }
 
 type c15Tap struct {
@@ -330,8 +344,35 @@ func (t *c15Tap) LogTraffic(id string, tx, rx uint64) bool {
 	t.mu.Lock()
 	defer t.mu.Unlock()
 	ok := t.inner.LogTraffic(id, tx, rx)
-	t.evs = append(t.evs, c15TapEv{Log: true, ID: t.idOf(id), Tx: tx, Rx: rx, OK: ok})
+	t.evs = append(t.evs, c15TapEv{Log: true, ID: t.idOf(id), Tx: tx, Rx: rx, OK: ok, Site: c15ReportSite()})
 	return ok
+}
+
+// the report site of a LogTraffic call, from observation: the innermost function of core/server on the call stack
+// (closures are named after the function they are written in: the two copy directions of copyTwoWayEx report as
+// "copyTwoWayEx").  The model (model/C15_Sites.v, site_of_caller) knows what each of them does with a refusal; a
+// name it does not know is a report site that is not in the model.
+func c15ReportSite() string {
+	pcs := make([]uintptr, 32)
+	n := runtime.Callers(3, pcs)
+	frames := runtime.CallersFrames(pcs[:n])
+	for {
+		fr, more := frames.Next()
+		if i := strings.Index(fr.Function, "/server."); i >= 0 && strings.Contains(fr.Function[:i], "hysteria/core") {
+			name := fr.Function[i+len("/server."):]
+			if j := strings.Index(name, ".func"); j >= 0 {
+				name = name[:j]
+			}
+			if j := strings.Index(name, ".gowrap"); j >= 0 {
+				name = name[:j]
+			}
+			// "(*udpIOImpl).ReceiveMessage" -> "udpIOImpl.ReceiveMessage"
+			return strings.NewReplacer("(*", "", "(", "", ")", "").Replace(name)
+		}
+		if !more {
+			return "?"
+		}
+	}
 }
 
 func (t *c15Tap) LogOnlineState(id string, online bool) {
@@ -422,6 +463,7 @@ func (l *c15EvLog) unpaired() string {
 // to the stock direct outbound of extras/outbounds, as the app configures it.
 type c15Gate struct {
 	base    server.Outbound
+	mem     chan *c15MemConn // the harness ends of the in-memory remotes, in the order the server dialled them
 	mu      sync.Mutex
 	entered map[string]int           // token -> dials that are inside TCP / UDP
 	rel     map[string]chan struct{} // token -> closed when released
@@ -430,10 +472,15 @@ type c15Gate struct {
 
 const c15HangSuffix = ".c15hang"
 
+// addresses of host "<anything>.c15mem" are in-memory remotes: the server gets one end of a c15MemConn pair, the
+// harness the other
+const c15MemSuffix = ".c15mem"
+
 func newC15Gate() *c15Gate {
 	return &c15Gate{
 		base:    &outbounds.PluggableOutboundAdapter{PluggableOutbound: outbounds.NewDirectOutboundSimple(outbounds.DirectOutboundModeAuto)},
 		entered: map[string]int{}, rel: map[string]chan struct{}{}, left: map[string]int{},
+		mem: make(chan *c15MemConn, 64),
 	}
 }
 
@@ -474,6 +521,15 @@ func (g *c15Gate) wait(token string) error {
 func (g *c15Gate) TCP(reqAddr string) (net.Conn, error) {
 	if tk, is := g.token(reqAddr); is {
 		return nil, g.wait(tk)
+	}
+	if host, _, err := net.SplitHostPort(reqAddr); err == nil && strings.HasSuffix(host, c15MemSuffix) {
+		srvEnd, harnessEnd := c15MemPipe()
+		select {
+		case g.mem <- harnessEnd:
+		default:
+			return nil, fmt.Errorf("dial %s: nobody accepts", reqAddr)
+		}
+		return srvEnd, nil
 	}
 	return g.base.TCP(reqAddr)
 }
@@ -521,6 +577,200 @@ func (g *c15Gate) releaseAll() {
 	}
 }
 
+// ---------------------------------------------------------------- in-memory remote
+
+// c15MemConn: one end of an in-memory duplex byte stream (a net.Conn).  Writes never block (the queue is unbounded;
+// the harness moves at most a few 10 kB per step).  A Read that drains the queue of a peer that has closed its write
+// side returns the bytes TOGETHER with io.EOF (and 0, io.EOF ever after), which is what io.Reader allows and what a QUIC
+// receive stream does when the last data and the FIN arrive together; a TCP socket never does.
+type c15MemHalf struct {
+	mu     sync.Mutex
+	cond   *sync.Cond
+	q      [][]byte
+	fin    bool      // the writer has closed: no more bytes will come
+	dead   bool      // the reader has closed
+	until  time.Time // read deadline
+	eofed  bool
+	nreads int
+}
+
+type c15MemConn struct {
+	rd, wr *c15MemHalf
+}
+
+func c15MemPipe() (*c15MemConn, *c15MemConn) {
+	a, b := &c15MemHalf{}, &c15MemHalf{}
+	a.cond, b.cond = sync.NewCond(&a.mu), sync.NewCond(&b.mu)
+	return &c15MemConn{rd: a, wr: b}, &c15MemConn{rd: b, wr: a}
+}
+
+type c15MemTimeout struct{}
+
+func (c15MemTimeout) Error() string   { return "i/o timeout" }
+func (c15MemTimeout) Timeout() bool   { return true }
+func (c15MemTimeout) Temporary() bool { return true }
+
+func (c *c15MemConn) Read(p []byte) (int, error) {
+	h := c.rd
+	h.mu.Lock()
+	defer h.mu.Unlock()
+	for {
+		if h.dead {
+			return 0, io.ErrClosedPipe
+		}
+		if len(h.q) > 0 {
+			if len(p) == 0 {
+				return 0, nil
+			}
+			n := 0
+			for n < len(p) && len(h.q) > 0 {
+				k := copy(p[n:], h.q[0])
+				n += k
+				if k == len(h.q[0]) {
+					h.q = h.q[1:]
+				} else {
+					h.q[0] = h.q[0][k:]
+				}
+			}
+			h.nreads++
+			if len(h.q) == 0 && h.fin {
+				h.eofed = true
+				return n, io.EOF // the last bytes and the end of the stream in one Read
+			}
+			return n, nil
+		}
+		if h.fin {
+			h.eofed = true
+			return 0, io.EOF
+		}
+		if !h.until.IsZero() && !time.Now().Before(h.until) {
+			return 0, c15MemTimeout{}
+		}
+		h.cond.Wait()
+	}
+}
+
+func (c *c15MemConn) write(p []byte, fin bool) (int, error) {
+	h := c.wr
+	h.mu.Lock()
+	defer h.mu.Unlock()
+	if h.fin || h.dead {
+		return 0, io.ErrClosedPipe
+	}
+	if len(p) > 0 {
+		h.q = append(h.q, append([]byte(nil), p...))
+	}
+	if fin {
+		h.fin = true
+	}
+	h.cond.Broadcast()
+	return len(p), nil
+}
+
+func (c *c15MemConn) Write(p []byte) (int, error) { return c.write(p, false) }
+
+// the bytes and the end of the stream, atomically (no Read of the peer can see the one without the other)
+func (c *c15MemConn) WriteFin(p []byte) (int, error) { return c.write(p, true) }
+
+func (c *c15MemConn) CloseWrite() error {
+	_, err := c.write(nil, true)
+	return err
+}
+
+func (c *c15MemConn) Close() error {
+	c.wr.mu.Lock()
+	c.wr.fin = true
+	c.wr.cond.Broadcast()
+	c.wr.mu.Unlock()
+	c.rd.mu.Lock()
+	c.rd.dead = true
+	c.rd.cond.Broadcast()
+	c.rd.mu.Unlock()
+	return nil
+}
+
+func (c *c15MemConn) SetReadDeadline(t time.Time) error {
+	h := c.rd
+	h.mu.Lock()
+	h.until = t
+	h.cond.Broadcast()
+	h.mu.Unlock()
+	if !t.IsZero() {
+		d := time.Until(t)
+		if d < 0 {
+			d = 0
+		}
+		time.AfterFunc(d+time.Millisecond, func() {
+			h.mu.Lock()
+			h.cond.Broadcast()
+			h.mu.Unlock()
+		})
+	}
+	return nil
+}
+func (c *c15MemConn) SetWriteDeadline(t time.Time) error { return nil }
+func (c *c15MemConn) SetDeadline(t time.Time) error      { return c.SetReadDeadline(t) }
+
+type c15MemAddr struct{}
+
+func (c15MemAddr) Network() string { return "mem" }
+func (c15MemAddr) String() string  { return "mem" }
+
+func (c *c15MemConn) LocalAddr() net.Addr  { return c15MemAddr{} }
+func (c *c15MemConn) RemoteAddr() net.Addr { return c15MemAddr{} }
+
+// ---------------------------------------------------------------- request hook
+
+// c15Hook: the server's RequestHook in scripts with hooked flows.  A request for "c15hook-<k>-<addr>" is hooked:
+// the hook takes k bytes off the stream (a sniffer reading the head of the payload), rewrites the address to <addr>
+// and hands the k bytes back as putback; every other address is not hooked (Check false).
+type c15Hook struct{}
+
+const c15HookPrefix = "c15hook-"
+
+func c15HookSplit(reqAddr string) (int, string, bool) {
+	if !strings.HasPrefix(reqAddr, c15HookPrefix) {
+		return 0, "", false
+	}
+	rest := reqAddr[len(c15HookPrefix):]
+	j := strings.IndexByte(rest, '-')
+	if j < 0 {
+		return 0, "", false
+	}
+	k, err := strconv.Atoi(rest[:j])
+	if err != nil || k < 0 {
+		return 0, "", false
+	}
+	return k, rest[j+1:], true
+}
+
+func (c15Hook) Check(isUDP bool, reqAddr string) bool {
+	_, _, is := c15HookSplit(reqAddr)
+	return is
+}
+
+func (c15Hook) TCP(stream server.HyStream, reqAddr *string) ([]byte, error) {
+	k, inner, _ := c15HookSplit(*reqAddr)
+	var data []byte
+	if k > 0 {
+		data = make([]byte, k)
+		_ = stream.SetReadDeadline(time.Now().Add(c15Deliver))
+		if _, err := io.ReadFull(stream, data); err != nil {
+			return nil, err
+		}
+		_ = stream.SetReadDeadline(time.Time{})
+	}
+	*reqAddr = inner
+	return data, nil
+}
+
+func (c15Hook) UDP(data []byte, reqAddr *string) error {
+	if _, inner, is := c15HookSplit(*reqAddr); is {
+		*reqAddr = inner
+	}
+	return nil
+}
+
 // ---------------------------------------------------------------- flows
 
 type c15Rx struct {
@@ -538,6 +788,14 @@ type c15Flow struct {
 	uc   client.HyUDPConn
 	rx   chan c15Rx
 	peer net.Addr
+	to   string // udp: the address the client sends to (with the hook marker on a hooked session)
+	mem  bool   // tcp: the remote end is an in-memory conn handed out by the gated outbound
+	pb   int    // tcp: bytes the request hook still waits for before it dials the target (0 once it has them)
+}
+
+// the four report sites of the model: the two copy directions of the TCP relay and the two datagram directions
+func c15RelaySite(site string) bool {
+	return site == "copyTwoWayEx" || site == "udpIOImpl.ReceiveMessage" || site == "udpIOImpl.SendMessage"
 }
 
 func (f *c15Flow) close() {
@@ -556,6 +814,7 @@ type c15E2EObs struct {
 	Step    int          `json:"step"`
 	Result  string       `json:"result"`  // ok | refused | rejected | skipped | error:<..>
 	Reports [][]uint64   `json:"reports"` // LogTraffic calls seen during the step: [id, tx, rx, accepted]
+	Sites   []string     `json:"sites"`   // ... and the function of core/server each of them was made from
 	Ups     []int        `json:"ups"`     // LogOnlineState(id, true) calls seen during the step
 	Downs   []int        `json:"downs"`   // LogOnlineState(id, false) calls seen during the step
 	Alive   *bool        `json:"alive"`   // tcp / udp steps: did a proxy attempt on the connection succeed afterwards?
@@ -606,9 +865,17 @@ func c15E2E(c c15Case, steps []c15Step, res map[string]any) {
 	// scripts with pending outbound dials run the server over the gated outbound (all other scripts: the default one)
 	var gate *c15Gate
 	for _, st := range steps {
-		if st.A == "hang" {
+		if st.A == "hang" || st.Mem {
 			gate = newC15Gate()
 			scfg.Outbound = gate
+			break
+		}
+	}
+	// scripts with hooked requests run the server with a RequestHook next to the TrafficLogger (requests whose address
+	// does not carry the marker are not hooked)
+	for _, st := range steps {
+		if st.Hooked {
+			scfg.RequestHook = c15Hook{}
 			break
 		}
 	}
@@ -641,6 +908,22 @@ func c15E2E(c c15Case, steps []c15Step, res map[string]any) {
 			accepted <- conn
 		}
 	}()
+	acceptRemote := func(f *c15Flow) net.Conn {
+		if f.mem {
+			select {
+			case c := <-gate.mem:
+				return c
+			case <-time.After(c15Deliver):
+				return nil
+			}
+		}
+		select {
+		case c := <-accepted:
+			return c
+		case <-time.After(c15Deliver):
+			return nil
+		}
+	}
 	// the target of the "is this connection still usable" probes: accepts and hangs up, no byte flows
 	probe, err := net.Listen("tcp", "127.0.0.1:0")
 	if err != nil {
@@ -1263,6 +1546,12 @@ func c15E2E(c c15Case, steps []c15Step, res map[string]any) {
 			}
 			id := slotID[st.Slot]
 			site := st.A + " " + st.Dir
+			if st.Fin {
+				site += " (the sender closes with these bytes: last chunk of the stream)"
+			}
+			if st.Hooked {
+				site += fmt.Sprintf(" (hooked request, putback %d)", st.Putback)
+			}
 			msg := vGenData(7, uint64(si), st.N)
 			// open the flow at its first step (opening moves no byte: no report)
 			f := flows[st.Flow]
@@ -1276,6 +1565,10 @@ func c15E2E(c c15Case, steps []c15Step, res map[string]any) {
 						break
 					}
 					f.uc = uc
+					f.to = remoteUDP.LocalAddr().String()
+					if st.Hooked {
+						f.to = c15HookPrefix + "0-" + f.to
+					}
 					f.rx = make(chan c15Rx, 16)
 					go func(f *c15Flow) {
 						for {
@@ -1291,42 +1584,84 @@ func c15E2E(c c15Case, steps []c15Step, res map[string]any) {
 						}
 					}(f)
 				} else {
-					cc, err := cl.TCP(remote.Addr().String())
+					target := remote.Addr().String()
+					if st.Mem && gate != nil {
+						f.mem = true
+						target = fmt.Sprintf("f%d-%d%s:1", si, st.Flow, c15MemSuffix)
+					}
+					if st.Hooked {
+						target = fmt.Sprintf("%s%d-%s", c15HookPrefix, st.Putback, target)
+						f.pb = st.Putback
+					}
+					cc, err := cl.TCP(target)
 					if err != nil {
 						fail("step %d: id %d could not open a TCP stream: %v", si, id, err)
 						result = "error:open"
 						break
 					}
 					f.cc = cc
-					select {
-					case f.rc = <-accepted:
-					case <-time.After(c15Deliver):
-						_ = cc.Close()
-						fail("step %d: the remote never saw the TCP connection of id %d", si, id)
-						result = "error:open"
-					}
-					if f.rc == nil {
-						break
+					// a hook that wants bytes dials the target only after it has read them: the remote sees the
+					// connection after the first upload
+					if f.pb == 0 {
+						if f.rc = acceptRemote(f); f.rc == nil {
+							_ = cc.Close()
+							fail("step %d: the remote never saw the TCP connection of id %d", si, id)
+							result = "error:open"
+							break
+						}
 					}
 				}
 				flows[st.Flow] = f
 			}
-			if f.udp != (st.A == "udp") || f.slot != st.Slot || (f.udp && st.Dir == "down" && f.peer == nil) {
+			if f.udp != (st.A == "udp") || f.slot != st.Slot || (f.udp && st.Dir == "down" && f.peer == nil) ||
+				(!f.udp && f.rc == nil && (st.Dir != "up" || st.N < f.pb)) || (f.udp && st.Fin) {
 				result = "skipped" // a script the generator does not produce
 				break
 			}
+			// the bytes of this step the hook takes off the stream and writes to the target itself (putback): the relay
+			// - and with it the relay's report sites - sees the rest
+			pb := 0
 			// move the bytes
 			var rxc <-chan c15Rx
 			var serr error
 			switch {
 			case !f.udp && st.Dir == "up":
-				rxc = readN(f.rc, st.N)
+				if f.rc != nil {
+					rxc = readN(f.rc, st.N)
+				}
 				_ = f.cc.SetWriteDeadline(time.Now().Add(c15Deliver))
 				_, serr = f.cc.Write(msg)
+				if st.Fin {
+					_ = f.cc.Close() // the stream's FIN right behind the bytes
+				}
+				if f.rc == nil {
+					pb, f.pb = f.pb, 0
+					if f.rc = acceptRemote(f); f.rc == nil {
+						ch := make(chan c15Rx, 1)
+						ch <- c15Rx{err: io.ErrUnexpectedEOF}
+						rxc = ch
+					} else {
+						rxc = readN(f.rc, st.N)
+					}
+				}
 			case !f.udp && st.Dir == "down":
 				rxc = readN(f.cc, st.N)
 				_ = f.rc.SetWriteDeadline(time.Now().Add(c15Deliver))
-				_, serr = f.rc.Write(msg)
+				switch rc := f.rc.(type) {
+				case *c15MemConn:
+					if st.Fin {
+						_, serr = rc.WriteFin(msg)
+					} else {
+						_, serr = rc.Write(msg)
+					}
+				case *net.TCPConn:
+					_, serr = rc.Write(msg)
+					if st.Fin {
+						_ = rc.CloseWrite()
+					}
+				default:
+					_, serr = rc.Write(msg)
+				}
 			case f.udp && st.Dir == "up":
 				for drained := false; !drained; {
 					select {
@@ -1336,11 +1671,12 @@ func c15E2E(c c15Case, steps []c15Step, res map[string]any) {
 					}
 				}
 				rxc = udpIn
-				serr = f.uc.Send(msg, remoteUDP.LocalAddr().String())
+				serr = f.uc.Send(msg, f.to)
 			default:
 				rxc = f.rx
 				_, serr = remoteUDP.WriteTo(msg, f.peer)
 			}
+			relayN := st.N - pb
 			// (a send that fails because a refusal already tore the connection down is still a refusal)
 			how, got, from := outcome(rxc, msg, id, mark)
 			if how == "timeout" && serr != nil {
@@ -1349,9 +1685,24 @@ func c15E2E(c c15Case, steps []c15Step, res map[string]any) {
 			if how == "delivered" && f.udp && st.Dir == "up" {
 				f.peer = from // the server's outbound socket of this session, for later "down" steps
 			}
+			if pb > 0 && how == "delivered" {
+				// the putback bytes are written to the target by handleTCPRequest itself; should that code report them, the
+				// call may come after the bytes have arrived: give it a moment to show up in this step's record
+				for t0 := time.Now(); time.Since(t0) < 100*time.Millisecond; time.Sleep(5 * time.Millisecond) {
+					late := false
+					for _, e := range tap.since(mark) {
+						late = late || (e.Log && !c15RelaySite(e.Site))
+					}
+					if late {
+						break
+					}
+				}
+			}
 			evs := tap.since(mark)
-			var tx, rx uint64
+			var tx, rx uint64   // accepted, from the four relay / datagram sites
+			var otx, orx uint64 // accepted, from anywhere else in core/server
 			nrep, nref, nother := 0, 0, 0
+			refSite := ""
 			for _, e := range evs {
 				if !e.Log {
 					continue
@@ -1361,33 +1712,91 @@ func c15E2E(c c15Case, steps []c15Step, res map[string]any) {
 					continue
 				}
 				nrep++
-				if e.OK {
+				switch {
+				case !e.OK:
+					nref++
+					if refSite == "" {
+						refSite = e.Site
+					}
+				case c15RelaySite(e.Site):
 					tx += e.Tx
 					rx += e.Rx
-				} else {
-					nref++
+				default:
+					otx += e.Tx
+					orx += e.Rx
 				}
 			}
 			if nother > 0 {
 				fail("step %d: %d traffic report(s) for a user that moved no byte", si, nother)
 			}
+			// EVERY refusal, wherever in core/server the report was made: the logger answered false for this user (the
+			// kick is used up), so the connection the report came from must be closed by the server within the bound,
+			// and nothing the connection does afterwards is reported as if nothing had happened
+			refusal := func() {
+				t0 := time.Now()
+				a := usable(cl)
+				for a && time.Since(t0) < c15Die && ok {
+					time.Sleep(10 * time.Millisecond)
+					a = usable(cl)
+				}
+				alive = &a
+				if a {
+					fail("step %d: id %d was kicked and its next report (%s) was refused - LogTraffic returned false to core/server.%s - but the user was not disconnected: "+
+						"a proxy attempt on that connection still succeeds %.1fs later", si, id, site, refSite, time.Since(t0).Seconds())
+					_ = cl.Close()
+				}
+				seenRef := false
+				for _, e := range tap.since(mark) {
+					if !e.Log || e.ID != id {
+						continue
+					}
+					if !e.OK {
+						seenRef = true
+					} else if seenRef {
+						fail("step %d: id %d: after the refused report (%s, at core/server.%s) a later report of the same connection was accepted as if nothing had happened: LogTraffic(tx=%d, rx=%d) at core/server.%s",
+							si, id, site, refSite, e.Tx, e.Rx, e.Site)
+						sent[id][0] += e.Tx
+						sent[id][1] += e.Rx
+					}
+				}
+				dropSlot(st.Slot)
+				live[id]--
+				wantDowns = append(wantDowns, id)
+			}
 			switch {
-			case how == "delivered" && pending[id]:
+			case how == "delivered" && nref > 0:
+				// all bytes arrived although a report of this transfer was refused
+				result = "refused"
+				if !pending[id] {
+					fail("step %d: LogTraffic(id %d) refused a %s report with no kick pending", si, id, site)
+				}
+				pending[id] = false
+				sent[id][0] += tx + otx
+				sent[id][1] += rx + orx
+				refusal()
+				fail("step %d: id %d: a report of this transfer (%s) was refused at core/server.%s, yet all %d bytes were proxied", si, id, site, refSite, st.N)
+			case how == "delivered" && pending[id] && relayN > 0:
 				fail("step %d: id %d was kicked but its next %d bytes (%s) were proxied", si, id, st.N, site)
 				pending[id] = false
 				sent[id][c15DirIx(st.Dir)] += uint64(st.N)
 			case how == "delivered":
-				sent[id][c15DirIx(st.Dir)] += uint64(st.N)
-				wtx, wrx := uint64(st.N), uint64(0)
+				// (with a kick pending and relayN == 0 the hook's putback was the whole transfer: the relay saw no byte
+				// and made no report, so the kick is still pending)
+				wtx, wrx := uint64(relayN), uint64(0)
 				if st.Dir == "down" {
-					wtx, wrx = 0, uint64(st.N)
+					wtx, wrx = 0, uint64(relayN)
 				}
 				if nref != 0 {
 					fail("step %d: LogTraffic(id %d) refused %d report(s) with no kick pending", si, id, nref)
 				} else if tx != wtx || rx != wrx {
-					fail("step %d: conservation broken end to end: %d bytes went %s for id %d, the accepted reports say tx=%d rx=%d",
-						si, st.N, site, id, tx, rx)
+					fail("step %d: conservation broken end to end: %d bytes went %s for id %d (%d of them through the relay), the accepted reports of the relay say tx=%d rx=%d",
+						si, st.N, site, id, relayN, tx, rx)
+				} else if otx > uint64(pb) || orx > 0 {
+					fail("step %d: conservation broken end to end: %d bytes went %s for id %d, %d of them as the hook's putback; reports from outside the relay say tx=%d rx=%d",
+						si, st.N, site, id, pb, otx, orx)
 				}
+				sent[id][0] += tx + otx
+				sent[id][1] += rx + orx
 				a := usable(cl)
 				alive = &a
 				if !a {
@@ -1405,25 +1814,16 @@ func c15E2E(c c15Case, steps []c15Step, res map[string]any) {
 				if nref != 1 || nrep != 1 {
 					fail("step %d: id %d was kicked once; its next reports (%s): %d made, %d refused (expected exactly one, refused)", si, id, site, nrep, nref)
 				}
-				if got > 0 {
-					fail("step %d: %d bytes of the refused %s report of id %d were forwarded", si, got, site, id)
+				// (the hook's putback is written to the target ahead of the relay: it is not part of a report the relay
+				// made; a report made for the putback itself covers exactly those bytes)
+				if allowed := pb; got > allowed || (got > 0 && !c15RelaySite(refSite)) {
+					if !c15RelaySite(refSite) {
+						allowed = 0
+					}
+					fail("step %d: %d bytes of the refused %s report of id %d (made at core/server.%s) were forwarded", si, got-allowed, site, id, refSite)
 				}
 				// the refusal must disconnect the user: the connection becomes unusable for the client
-				t0 := time.Now()
-				a := usable(cl)
-				for a && time.Since(t0) < c15Die && ok {
-					time.Sleep(10 * time.Millisecond)
-					a = usable(cl)
-				}
-				alive = &a
-				if a {
-					fail("step %d: id %d was kicked and its next report (%s) was refused, but the user was not disconnected: "+
-						"a proxy attempt on that connection still succeeds %.1fs later", si, id, site, time.Since(t0).Seconds())
-					_ = cl.Close()
-				}
-				dropSlot(st.Slot)
-				live[id]--
-				wantDowns = append(wantDowns, id)
+				refusal()
 			default:
 				if pending[id] {
 					fail("step %d: id %d was kicked; its next transfer (%s, %d bytes) was neither refused nor proxied: %s", si, id, site, st.N, how)
@@ -1433,6 +1833,13 @@ func c15E2E(c c15Case, steps []c15Step, res map[string]any) {
 				result = how
 				if !strings.HasPrefix(result, "error") {
 					result = "error:" + how
+				}
+			}
+			if st.Fin {
+				// the stream is over: both directions of the relay end (the server closes the target and the stream)
+				if f2 := flows[st.Flow]; f2 != nil {
+					f2.close()
+					delete(flows, st.Flow)
 				}
 			}
 		}
@@ -1453,7 +1860,7 @@ func c15E2E(c c15Case, steps []c15Step, res map[string]any) {
 			}
 		}
 		pairing(si, st.A, good)
-		ob := c15E2EObs{Step: si, Result: result, Alive: alive, Online: on, Reports: [][]uint64{}, Ups: []int{}, Downs: []int{}, Auths: auths, Pend: pobs}
+		ob := c15E2EObs{Step: si, Result: result, Alive: alive, Online: on, Reports: [][]uint64{}, Sites: []string{}, Ups: []int{}, Downs: []int{}, Auths: auths, Pend: pobs}
 		for _, e := range tap.since(mark) {
 			switch {
 			case e.Log:
@@ -1462,6 +1869,7 @@ func c15E2E(c c15Case, steps []c15Step, res map[string]any) {
 					b = 1
 				}
 				ob.Reports = append(ob.Reports, []uint64{uint64(int64(e.ID)), e.Tx, e.Rx, b})
+				ob.Sites = append(ob.Sites, e.Site)
 			case e.On:
 				ob.Ups = append(ob.Ups, e.ID)
 			default:
